@@ -3,6 +3,7 @@ package gen
 import (
 	"bytes"
 	"encoding/binary"
+	"fmt"
 	"hash/crc32"
 
 	"pgregory.net/rapid"
@@ -280,7 +281,7 @@ func scrubSig(d []byte) {
 // CR3Wrap draws the box tree of a Canon CR3 file once; the returned function
 // embeds TIFF payloads in its CMT boxes: cmt[0] = IFD0 block (CMT1), cmt[1] =
 // Exif block (CMT2), cmt[2] = maker note (CMT3), cmt[3] = GPS block (CMT4); nil = absent.
-func CR3Wrap(rt *rapid.T) func(cmt [4][]byte) ([]byte, *Box) {
+func CR3Wrap(rt *rapid.T, edits ...func(moov, canon *Box)) func(cmt [4][]byte) ([]byte, *Box) {
 	cctp := rapid.Bool().Draw(rt, "cr3.cctp")
 	var f1 *Box
 	if cctp {
@@ -331,6 +332,9 @@ func CR3Wrap(rt *rapid.T) func(cmt [4][]byte) ([]byte, *Box) {
 		if canonLast { // uuid after the other moov children
 			moov.Kids = append(moov.Kids[1:], moov.Kids[0])
 		}
+		for _, e := range edits {
+			e(moov, canon)
+		}
 		top := []*Box{Ftyp("crx ", 1, "crx ", "isom"), moov}
 		top = append(top, &Box{Type: "mdat", Data: mdat})
 		var out []byte
@@ -348,7 +352,7 @@ func CR3With(rt *rapid.T, cmt [4][]byte) ([]byte, *Box) { return CR3Wrap(rt)(cmt
 // HEIFWrap draws the surroundings of a HEIF file once; the returned function
 // embeds a TIFF payload the way HEIF stores Exif: an item in mdat holding
 // exif_tiff_header_offset, "Exif\0\0" and the TIFF block.
-func HEIFWrap(rt *rapid.T) func(payload []byte) []byte {
+func HEIFWrap(rt *rapid.T, edits ...func(meta *Box)) func(payload []byte) []byte {
 	brand := rapid.SampledFrom([][]string{{"heic", "mif1", "heic"}, {"heix", "mif1", "heix"}, {"mif1", "mif1", "heic"}, {"mif1", "heic", "miaf"}}).Draw(rt, "heif.brand")
 	pre := rapid.SliceOfN(rapid.Byte(), 0, 120).Draw(rt, "heif.mdatpre")
 	scrubSig(pre)
@@ -376,6 +380,9 @@ func HEIFWrap(rt *rapid.T) func(payload []byte) []byte {
 		// iloc with one extent for item 2 (offset filled after layout)
 		iloc := &Box{Type: "iloc", Full: true, Data: make([]byte, 2+2+2+2+2+4+4)}
 		meta.Kids = append(meta.Kids, iloc)
+		for _, e := range edits {
+			e(meta)
+		}
 		top := []*Box{ft, meta}
 		if free != nil {
 			top = append(top, &Box{Type: free.Type, Data: free.Data, Large: free.Large})
@@ -399,6 +406,25 @@ func HEIFWrap(rt *rapid.T) func(payload []byte) []byte {
 		binary.BigEndian.PutUint32(d[14:], uint32(len(item)))
 		return serial()
 	}
+}
+
+// WrapLying moves a run of parent's children into a new box whose declared size is wrong (it states more
+// than the parent holds, or less than its own children): a reader that cannot close the wrapper finds
+// the wrapped boxes at its position. Returns a description.
+func WrapLying(rt *rapid.T, parent *Box) string {
+	if len(parent.Kids) == 0 {
+		return "no-children"
+	}
+	i := rapid.IntRange(0, len(parent.Kids)-1).Draw(rt, "wrap.from")
+	j := rapid.IntRange(i, len(parent.Kids)-1).Draw(rt, "wrap.to")
+	typ := rapid.SampledFrom([]string{"free", "skip", "zzzz", "iprp", "dinf", "uuid"}).Draw(rt, "wrap.type")
+	over := rapid.SampledFrom([]int64{1, 7, 8, 9, 100, 4096, 1 << 20, 1 << 30, -1, -8, -9}).Draw(rt, "wrap.over")
+	w := &Box{Type: typ, Kids: append([]*Box{}, parent.Kids[i:j+1]...), Overstate: over}
+	if typ == "uuid" {
+		w.Data = make([]byte, 16)
+	}
+	parent.Kids = append(append(append([]*Box{}, parent.Kids[:i]...), w), parent.Kids[j+1:]...)
+	return fmt.Sprintf("%s[%d..%d]%+d in %s", typ, i, j, over, parent.Type)
 }
 
 // HEIFWith embeds a TIFF payload in a HEIF file.
